@@ -14,6 +14,8 @@ CONSTANTS
   HU0R <- HU0RAll
   HSCALES <- HScalesAll
   MTOUCHES <- MTouchAll
+  MFAILS <- MFailNone
+  GFAILS <- MFailNone
   HLEN = 2
   PHASEDICTS <- PhaseDicts
   NVER = 2
